@@ -129,6 +129,80 @@ def oracle_eq_hash(res, rng):
             optree.unregister_pytree_node(cls, namespace=ns)
 
 
+def oracle_dataclass(res, rng):
+    """dataclasses as custom nodes: integer entries (no entries returned by the flatten function) index the
+    INIT fields, string entries name the field; with init=False fields before / between / after the init
+    fields, keyword-only fields, and nesting inside and around other containers"""
+    import dataclasses
+    nf = rng.randrange(1, 6)
+    spec = []
+    for i in range(nf):
+        init = rng.random() < 0.65
+        spec.append((f'f{i}', init))
+    if not any(init for _, init in spec):
+        j = rng.randrange(nf)
+        spec[j] = (spec[j][0], True)
+    fields = []
+    for name, init in spec:
+        if init:
+            fields.append((name, object))
+        else:
+            fields.append((name, object, dataclasses.field(init=False, default_factory=lambda: ['derived'])))
+    cls = dataclasses.make_dataclass(f'DC{rng.randrange(10**6)}', fields)
+    init_names = [n for n, i in spec if i]
+    use_names = rng.random() < 0.4
+    pet = rng.choice([None, optree.DataclassEntry]) if not use_names else rng.choice([None, optree.DataclassEntry, optree.GetAttrEntry])
+
+    def flat(x):
+        ch = tuple(getattr(x, n) for n in init_names)
+        return (ch, None, tuple(init_names)) if use_names else (ch, None)
+
+    ns = rng.choice(['', 'dc-ns'])
+    kw = {} if pet is None else {'path_entry_type': pet}
+    optree.register_pytree_node(cls, flat, lambda md, ch: cls(*ch), namespace=ns or world.GLOBAL, **kw)
+    case = f'dataclass fields={spec} string_entries={use_names} path_entry_type={getattr(pet, "__name__", None)} namespace={ns!r}'
+    try:
+        leaves = [world.Opaque(70000 + i) for i in range(3 * nf + 3)]
+        it = iter(leaves)
+
+        def child():
+            r = rng.random()
+            if r < 0.5:
+                return next(it)
+            if r < 0.7:
+                return [next(it), (next(it),)]
+            return {'k': next(it)}
+        inner = cls(*[child() for _ in init_names])
+        tree = rng.choice([lambda: inner, lambda: [inner, next(it)], lambda: {'d': inner}, lambda: (cls(*[inner] + [next(it) for _ in init_names[1:]]),)])()
+        res.evaluations += 1
+        accs, ls, sp = optree.tree_flatten_with_accessor(tree, namespace=ns)
+        paths = optree.tree_paths(tree, namespace=ns)
+        if [a.path for a in accs] != paths or sp.accessors() != accs:
+            res.fail('accessor paths differ from tree_paths / treespec.accessors()', case)
+        for acc, leaf in zip(accs, ls):
+            r = attempt(lambda: acc(tree))
+            if r[0] != 0 or r[1] is not leaf:
+                res.fail('the i-th accessor applied to the tree is not the i-th leaf object (dataclass node)', case, f'{acc!r} -> {r}')
+                continue
+            node = tree
+            for e in acc:
+                if type(node) is cls:
+                    if e.type is not cls:
+                        res.fail('an entry below a dataclass node is not typed with the dataclass', case, f'{e!r}')
+                    if isinstance(e, optree.DataclassEntry):
+                        want = init_names[e.entry] if isinstance(e.entry, int) else e.entry
+                        if e.field != want or e.name != want or want not in init_names:
+                            res.fail('DataclassEntry names the wrong field', case, f'{e!r} entry={e.entry!r} field={e.field!r} want={want!r}')
+                node = e(node)
+            code = attempt(lambda: acc.codify('tree'))
+            if code[0] == 0:
+                ev = attempt(lambda: eval(code[1], {'tree': tree}))   # noqa: S307
+                if ev[0] != 0 or ev[1] is not leaf:
+                    res.fail('generated code does not evaluate to the leaf (dataclass node)', case, code[1])
+    finally:
+        optree.unregister_pytree_node(cls, namespace=ns or world.GLOBAL)
+
+
 def entries_distinct(o):
     if o[0] != 1:
         return True
@@ -162,6 +236,8 @@ def run(res, tier, seed):
         warnings.simplefilter('ignore')
         for i in range(5):
             oracle_eq_hash(res, rng)
+        for i in range(300 if tier == 'quick' else 6000):
+            oracle_dataclass(res, rng)
     mod = runner.run_model(cmds)
     for c, a, b in zip(cmds, obs, mod):
         res.compare(c, a, b, 'cmd_access' if c[0] == 10 else 'cmd_inspect')
